@@ -44,6 +44,14 @@ CHECKS = {
    text="Relational obligations between two symbolic runs of the real vario_estimate (kernels interpreted from the .pyx source) on 3 (thorough 4) symbolic 2-D points: permutation of the points, translation by a symbolic vector, rotation by a symbolic angle, field + constant, field x factor => factor^2 x estimate (factors 2 and -1.5), mask / NaN / no_data == the point removed (two fields, common mask), constant mean and callable (uninterpreted) trend == estimate of the detrended field, lat-lon with geo_scale R and edges B == geo_scale 1 and edges B/R (also on the edges that reach the kernel), structured mesh == generate_grid point list, seeded down-sampling == the estimate on the chosen index subset, drawn without replacement from range(n) with the given seed; the kernel's direction test is invariant under a common rotation of pair vector and unit direction (with and without bandwidth).",
    note="numpy.random.RandomState.choice is a stub returning harness-chosen index vectors (its replace flag, population, size and seed are obligations); directional rotation invariance is compositional (dir_test invariance + distance invariance + the C08 decomposition); sizes bounded; fit_normalizer outside.",
    technique="relational symbolic execution (two runs, one solver query per bin) with polynomial hint lemmas", ref="DESIGN.md §4 C09"),
+ "C05": dict(engine="E1-symnp + E2-kernel", level="model_checking",
+   text="The real Simple / Ordinary / Universal / ExtDrift / Detrended kriging classes run on symbolic positions, data, model parameters, anisotropy/rotation and measurement errors with the (pseudo-)inverse replaced by a symbolic matrix M logged with the matrix K it inverts. Decided per entry: K equals the textbook block matrix [[C+E,F^T],[F,0]] (nugget / scalar / per-point errors on the diagonal, unbiasedness row, drift monomials at the original coordinates, external drift), every right-hand side equals the textbook vector (covariance or nugget-aware covariance in exact mode, drift at the anisometrised target), the prepared data vector, estimate = trend + mean + z^T M k and variance = max(sill - k^T M k, 0) through the kernels interpreted from krigesum.pyx, chunked == unchunked evaluation, an unbounded LIA proof that the chunk slices partition the targets; with M K = K M = I: ordinary kriging reproduces constants (also get_mean and the only_mean field), universal kriging reproduces its linear drift, estimates are linear in the mean-free data.",
+   note="the inverse is a stub: M is arbitrary in the assembly obligations and an exact inverse where stated (non-singular systems); correlation is an uninterpreted function (any model); anisotropic cases compose through the isometrisation lemma of C12; permutation invariance of conditioning points and fit_variogram/fit_normalizer are outside.",
+   technique="symbolic execution of the kriging classes with a symbolic inverse + symbolic interpretation of the kernels + SMT per matrix/vector entry", ref="DESIGN.md §4 C05"),
+ "C06": dict(engine="E1-symnp + E2-kernel", level="model_checking",
+   text="With M K = K M = I and cor(0)=1: for all five variants, without nugget or in exact mode with nugget, and through a LogNormal normalizer, the estimate at a conditioning location equals the datum and the variance is 0 (staged: rhs = first column of K; M k = e_0; k^T M k = sill); the returned variance is >= 0 for any matrix the inversion returns; for simple kriging with 1 and 2 conditioning points variance <= sill (explicit 2x2 inverse, |cor|<=1); two coincident conditioning points solved with a matrix satisfying the four Penrose equations act as a single point carrying their mean value (estimate and variance).",
+   note="variance <= sill for more than 2 points needs positive definiteness of K (undecided clause of C02) and is outside; numerical exactness of pinv outside; cor(0)=1 and |cor|<=1 are assumptions here, decided per shipped model under C03/C02.",
+   technique="symbolic execution with symbolic (pseudo-)inverse constrained by inverse / Penrose axioms, staged lemmas, SMT", ref="DESIGN.md §4 C06"),
 }
 
 PENDING_REASON = "check not built yet in this session (work in progress; see DESIGN.md §7 build order)"
